@@ -196,6 +196,7 @@ func TestC01RoundTrip(t *testing.T) {
 	rapid.Check(t, prop(r, func(t *rapid.T) {
 		opts := gen.DefaultSchemaOpts
 		opts.AllowTypeField = true
+		opts.OddFromType = true
 		opts.JSONTagOptions = rapid.IntRange(0, 3).Draw(t, "tagoptions") == 0
 		ss := gen.CoherentSchema(t, opts)
 		ts := &ss.Types[rapid.IntRange(0, len(ss.Types)-1).Draw(t, "type")]
